@@ -105,7 +105,8 @@ def run(ctx):
                 if not ctx.mine(idx):
                     continue
                 cfg = {'extractor': rng.choice([None, None, 'ok', 'raises', 'junk_pairs']), 'fail_save': rng.random() < 0.15,
-                       'rate': rng.choice([None, None, None, 0, 0.5])}
+                       'rate': rng.choice([None, None, None, 0, 0.5]),
+                       'caller_context': fr.CALLER_CONTEXTS[idx % 9] if idx % 9 < 4 else 'plain'}
                 if session is None:
                     cfg['kind'] = rng.choice(['memory', 'memory', 'file', 's3'])
                     res = fr.execute(prog, faults, with_twin=False, **cfg)
